@@ -389,15 +389,32 @@ func (w *world) checkUncut(c *props.Ctx, hist []int, pairs bool) *failure {
 	// pruning the file the searcher remembers); every later query on it must still be answered from the files
 	// that exist now. Only directory states that lost a file since then differ from the pair pass below.
 	final := readDirAll(w.dir)
+	var ks []int
 	for k := 0; k+1 < len(w.snaps); k++ {
-		lost := false
 		for n := range w.snaps[k].files {
 			if _, ok := final[n]; !ok {
-				lost = true
+				ks = append(ks, k)
+				break
 			}
 		}
-		if !lost {
-			continue
+	}
+	if len(ks) > 3 {
+		// long roll chains: the earliest, a middle and the latest state that lost a file since
+		ks = []int{ks[0], ks[len(ks)/2], ks[len(ks)-1]}
+	}
+	liveQs := w.queries(false)
+	if len(liveQs) > 60 {
+		// long chains have hundreds of queries: every stride-th one, so that the pass stays linear in the chain
+		stride := len(liveQs)/60 + 1
+		var sel []query
+		for i := 0; i < len(liveQs); i += stride {
+			sel = append(sel, liveQs[i])
+		}
+		liveQs = sel
+	}
+	for _, k := range ks {
+		if c.Expired() {
+			break
 		}
 		scratch, err := os.MkdirTemp(filepath.Dir(w.dir), "c17-live-")
 		if err != nil {
@@ -405,7 +422,7 @@ func (w *world) checkUncut(c *props.Ctx, hist []int, pairs bool) *failure {
 		}
 		sk := w.snaps[k].sec
 		for _, touch := range []query{{Kind: 1, Begin: sk, MaxLines: 1}, {Kind: 0, Begin: sk, End: sk}, {Kind: 1, Begin: w.created, MaxLines: 1}} {
-			for _, q := range w.queries(false) {
+			for _, q := range liveQs {
 				setDir(scratch, w.snaps[k].files)
 				sr := w.newSearcher(scratch)
 				if _, err, pan := runQuery(sr, touch); err != nil || pan != nil {
